@@ -60,6 +60,19 @@ def mode_join(req):
     out = []
     try:
         for b6, l6 in req['pairs']:
+            done, res = base.with_deadline(lambda b6=b6, l6=l6: _join_case(req, b6, l6))
+            if not done:
+                res = {'obs': ['%06x%06x' % (ERRM, 99), '%06x%06x' % (ERRM, 99)], 'calls': [],
+                       'bad': ['urljoin-raises-does-not-terminate'], 'timeout': True}
+            out.append(res)
+    finally:
+        urllib.parse.urljoin = _orig_urljoin
+    return {'results': out, 'logged': _Count.n}
+
+
+def _join_case(req, b6, l6):
+    if True:
+        if True:
             b, l = un6(b6), un6(l6)
             af = bool(req.get('allow_fragments', True))
             JoinRec.calls = []
@@ -88,11 +101,8 @@ def mode_join(req):
             for c in calls:
                 if c[2] is None and c[3] not in (1, 2, 3):
                     bad.append('stdlib-urljoin-raises-%s' % c[4])
-            out.append({'obs': [''.join('%06x' % x for x in j), ''.join('%06x' % x for x in s)],
-                        'calls': [c[:4] for c in calls], 'bad': bad})
-    finally:
-        urllib.parse.urljoin = _orig_urljoin
-    return {'results': out, 'logged': _Count.n}
+            return {'obs': [''.join('%06x' % x for x in j), ''.join('%06x' % x for x in s)],
+                    'calls': [c[:4] for c in calls], 'bad': bad}
 
 
 def main():
